@@ -95,6 +95,8 @@ def require(rep, verdict, what, path=None, replay=None, detail=""):
     """turn an identity verdict into a report entry."""
     if verdict == "zero" or verdict is True or verdict == "unsat":
         rep.ok(what, path=path)
+        if replay is not None:
+            rep.replay_seen(replay)
         return True
     if verdict == "nonzero" or verdict is False or verdict == "sat":
         rep.fail(what + (" [path %s]" % (path,) if path is not None else ""), replay, detail=detail)
